@@ -464,7 +464,7 @@ func (p *peer) respond(st *pstream, tick bool) bool {
 		wf(":status", "200")
 		wf("content-type", "application/octet-stream")
 		if !sp.NoCL {
-			wf("content-length", strconv.Itoa(sp.RespSize))
+			wf("content-length", strconv.Itoa(sp.RespSize-sp.CLShort))
 		}
 		end := sp.RespSize == 0 && sp.EndOnHeaders
 		blk := append([]byte(nil), p.hbuf.Bytes()...)
